@@ -9,7 +9,7 @@ import numpy as np
 
 ID = "C08"
 SHARDS = {"quick": 8, "thorough": 16}
-BUDGET = {"quick": 45, "thorough": 420}
+BUDGET = {"quick": 300, "thorough": 1800}
 RULE = ("index vectors (constant, strictly increasing, runs of random length, "
         "negative, near +-2^31) of length 1..2000 x values on the k/4 lattice and "
         "random floats incl. negatives, zeros, NaN leading / trailing / last in "
